@@ -55,8 +55,15 @@ def _advances(arm, cursor="rgce"):
             for ix in walk_k(e["r"], "Index"):
                 idx = unwrap(ix["idx"])
                 if idx.get("k") == "Struct":
-                    f = {x["name"]: lit_value(x["e"]) for x in idx["fields"]}
-                    out.append(f.get("start"))
+                    f = {x["name"]: x["e"] for x in idx["fields"]}
+                    st_ = f.get("start")
+                    v = lit_value(st_) if st_ is not None else None
+                    if v is None and st_ is not None and path_local(st_):
+                        # `let operands_len = 6; rgce = &rgce[operands_len..]`
+                        for l_ in walk_k(arm["body"], "Let"):
+                            if l_.get("init") is not None and l_["pat"].get("k") == "Binding" and l_["pat"].get("lid") == path_local(st_)[1]:
+                                v = lit_value(l_["init"])
+                    out.append(v)
     return out
 
 
